@@ -13,6 +13,7 @@ package main
 
 import (
 	"bytes"
+	"errors"
 	"fmt"
 	"math/rand"
 	"reflect"
@@ -804,6 +805,15 @@ func c10File(r *Run) {
 		bankClosed[rc.bank] = true
 	}
 
+	// sometimes the callback stops the read with an error at some record, having
+	// closed (or not) the bank it was just given
+	errAt, closeOwn := -1, rng.Intn(2) == 0
+	if rng.Intn(3) == 0 {
+		errAt = rng.Intn(nrec)
+	}
+	desc["callback_error_at"], desc["callback_closes_own_bank"] = errAt, closeOwn
+	errStop := errors.New("callback stops the read")
+
 	var rerr error
 	func() {
 		defer func() {
@@ -852,10 +862,22 @@ func c10File(r *Run) {
 					cl = append(cl, o.bank)
 				}
 			}
+			if k == errAt {
+				if closeOwn && !rc.closed {
+					closeRec(k)
+					cl = append(cl, rc.bank)
+				}
+				pendingCloses = append(pendingCloses, cl)
+				r.Count(fmt.Sprintf("B/callback-error/closes-own=%v", closeOwn))
+				return errStop
+			}
 			pendingCloses = append(pendingCloses, cl)
 			return nil
 		})
 	}()
+	if errAt >= 0 && rerr == errStop {
+		rerr = nil
+	}
 	r.Count("B/file/" + codec)
 	if rerr != nil {
 		r.Count("B/read-error")
@@ -877,6 +899,24 @@ func c10File(r *Run) {
 		tail = append(tail, retained[k].bank)
 		checkAll(fmt.Sprintf("after closing the bank of record %d", k))
 	}
+	// afterwards: banks handed out now are held by nobody else.  Four ReadBufs taken
+	// at the same time must hold four different banks, none of them the bank of a
+	// retained record that is still open.
+	var later []*avro.ReadBuf
+	heldNow := map[*avro.ResourceBank]bool{}
+	for i := 0; i < 4; i++ {
+		b := avro.NewReadBuf(nil)
+		later = append(later, b)
+		rb := c10BankOf(b)
+		if heldNow[rb] {
+			fail("overlap", fmt.Sprintf("after the read: two ReadBufs taken at the same time hold the same bank (the pool holds it twice)"))
+		}
+		heldNow[rb] = true
+		if id, known := bankID[rb]; known && !bankClosed[id] {
+			fail("overlap", fmt.Sprintf("after the read: a new ReadBuf holds bank %d, which still belongs to a retained record", id))
+		}
+	}
+	runtime.KeepAlive(later)
 	// The pool history.  The bank delivered with record k+1 was taken from the pool by
 	// ExtractResourceBank just BEFORE the callback of record k ran.
 	seen := map[*avro.ResourceBank]bool{}
